@@ -27,6 +27,7 @@ class Project(object):
         self._norm_cache = {}  # type: dict[str, list[str]]
         self._module_cache = {}  # type: dict[str, ImportedModule | SourceModule]
         self._context_cache = {}  # type: dict[str, ImportedModule | SourceModule]
+        self._failed_imports = set()  # type: set[str]
         self.dyn_modules = set(dyn_modules or [])
 
     def get_path(self):
@@ -72,7 +73,22 @@ class Project(object):
     def check_changes(self):
         # type: () -> t.Iterator[None]
         self._context_cache.clear()
+        if self._is_stale():
+            # cached analyses keep references into each other (resolved
+            # imports, star-imported names), so any change drops them all
+            self._module_cache.clear()
+            self._failed_imports.clear()
         yield
+
+    def _is_stale(self):
+        # type: () -> bool
+        for m in self._module_cache.values():
+            if m.changed:
+                return True
+        for name in self._failed_imports:
+            if self._find_module(name)[0]:
+                return True
+        return False
 
     def get_nmodule(self, name, filename):
         # type: (str, str) -> SourceModule | ImportedModule
@@ -95,6 +111,29 @@ class Project(object):
         except KeyError:
             pass
 
+        filename, is_source = self._find_module(name)
+
+        module = None  # type: SourceModule | ImportedModule | None
+        if not filename:
+            if name in sys.modules:
+                module = ImportedModule(sys.modules[name])
+        else:
+            if name in self.dyn_modules or not is_source:
+                if name not in sys.modules:
+                    __import__(name)
+                module = ImportedModule(sys.modules[name])
+            else:
+                module = SourceModule(self, name, filename)
+
+        if not module:
+            self._failed_imports.add(name)
+            raise ImportError(name)
+
+        self._module_cache[name] = module
+        return module
+
+    def _find_module(self, name):
+        # type: (str) -> tuple[str | None, bool]
         path = self.get_path()
         filename = None
         is_source = False
@@ -116,23 +155,7 @@ class Project(object):
             if filename:
                 break
 
-        module = None  # type: SourceModule | ImportedModule | None
-        if not filename:
-            if name in sys.modules:
-                module = ImportedModule(sys.modules[name])
-        else:
-            if name in self.dyn_modules or not is_source:
-                if name not in sys.modules:
-                    __import__(name)
-                module = ImportedModule(sys.modules[name])
-            else:
-                module = SourceModule(self, name, filename)
-
-        if not module:
-            raise ImportError(name)
-
-        self._module_cache[name] = module
-        return module
+        return filename, is_source
 
     def norm_package(self, package, filename):
         # type: (str, str) -> str
